@@ -384,6 +384,22 @@ pub fn run(rng: &mut R, out: &mut Out) {
         let blinded = a.blinding_pubkey.is_some();
         out.s("valid_address_parses", Address::from_str(&s).ok().as_ref() == Some(a) && Address::parse_with_params(&s, a.params).ok().as_ref() == Some(a), || s.clone());
         out.s("valid_address_parses_uppercase", Address::from_str(&s.to_uppercase()).ok().as_ref() == Some(a), || s.clone());
+        // mixed case ACROSS the separator (whole hrp in one case, whole data part in the other) must be rejected
+        // whenever both parts contain a letter: BIP173 forbids mixed case anywhere in the string
+        {
+            let sep = sep_pos(&s);
+            let (h, d) = s.split_at(sep);
+            let has_alpha = |x: &str| x.bytes().any(|c| c.is_ascii_alphabetic());
+            if has_alpha(h) && has_alpha(&d[1..]) {
+                for t in [format!("{}{}", h.to_uppercase(), d), format!("{}{}", h, d.to_uppercase())] {
+                    let acc = accepted_anywhere(&t);
+                    out.s("mixed_case_across_separator_rejected", acc.is_none(), || format!("orig={} mixed={} accepted: {}", s, t, acc.clone().unwrap_or_default()));
+                    for m in 0..3 {
+                        k_segwit(out, m, &t);
+                    }
+                }
+            }
+        }
         for m in 0..3 {
             k_segwit(out, m, &s);
             k_segwit(out, m, &s.to_uppercase());
